@@ -134,17 +134,23 @@ func c18Bucket(w *world.World, tracked bool) *lungo.Bucket {
 
 // ---- upload sweep
 
+var c18Suspensions int64
+
 func c18Uploads(c *Ctx) (uploads, partitions int64) {
 	r := c.R
-	type job struct{ B, cs, L int }
+	type job struct{ B, cs, L, mode int }
 	var jobs []job
 	for _, B := range []int{4, 6} {
 		for cs := 1; cs <= 4; cs++ {
 			for L := 0; L <= 2*B+cs+1; L++ {
-				jobs = append(jobs, job{B, cs, L})
+				for mode := 0; mode < 3; mode++ {
+					jobs = append(jobs, job{B, cs, L, mode})
+				}
 			}
 		}
 	}
+	// the long ones first: the workers finish together
+	sort.SliceStable(jobs, func(a, b int) bool { return jobs[a].L > jobs[b].L })
 	par.For(len(jobs), r.TooMany, func(ji int) {
 		j := jobs[ji]
 		content := c18Content(j.L)
@@ -156,15 +162,28 @@ func c18Uploads(c *Ctx) (uploads, partitions int64) {
 			}
 		}
 		parts = append(parts, []int{j.L}, []int{j.L, 0})
-		w := world.New()
-		defer w.Close()
-		for tracked := 0; tracked < 2; tracked++ {
-			bucket := c18Bucket(w, tracked == 1)
+		// tracked == 2: tracked bucket, and the upload is suspended and resumed on a new stream after every write but the last
+		for tracked := j.mode; tracked == j.mode; tracked++ {
+			var w *world.World
+			var bucket *lungo.Bucket
+			defer func() {
+				if w != nil {
+					w.Close()
+				}
+			}()
 			for pi, p := range parts {
+				if pi%12 == 0 {
+					// a fresh database every few files keeps the collections (which are scanned by every call) small
+					if w != nil {
+						w.Close()
+					}
+					w = world.New()
+					bucket = c18Bucket(w, tracked >= 1)
+				}
 				atomic.AddInt64(&partitions, 1)
 				id := fmt.Sprintf("f-%d-%d", tracked, pi)
-				rep := map[string]interface{}{"part": "upload", "buffer": j.B, "chunk_size": j.cs, "length": j.L, "writes": p, "tracked": tracked == 1}
-				what := fmt.Sprintf("upload of %d bytes in writes %v, chunk size %d, buffer %d, tracked=%v", j.L, p, j.cs, j.B, tracked == 1)
+				rep := map[string]interface{}{"part": "upload", "buffer": j.B, "chunk_size": j.cs, "length": j.L, "writes": p, "tracked": tracked >= 1, "suspend_resume_between_writes": tracked == 2}
+				what := fmt.Sprintf("upload of %d bytes in writes %v, chunk size %d, buffer %d, tracked=%v, suspended and resumed between writes=%v", j.L, p, j.cs, j.B, tracked >= 1, tracked == 2)
 				viol := func(class, msg string) { r.Violation("upload:"+class, what+": "+msg, rep) }
 				s, err := bucket.OpenUploadStreamWithID(w.Ctx, id, "name", options.GridFSUpload().SetChunkSizeBytes(int32(j.cs)))
 				if err != nil {
@@ -172,16 +191,40 @@ func c18Uploads(c *Ctx) (uploads, partitions int64) {
 					continue
 				}
 				s.VerifSetBufferSize(j.B)
-				off := 0
+				off, end := 0, 0
 				failed := false
-				for _, n := range p {
-					m, err := s.Write(content[off : off+n])
-					if err != nil || m != n {
-						viol("write", fmt.Sprintf("Write of %d bytes returned (%d, %v)", n, m, err))
+				for k, n := range p {
+					end += n
+					m, err := s.Write(content[off:end])
+					if err != nil || m != end-off {
+						viol("write", fmt.Sprintf("Write of %d bytes returned (%d, %v)", end-off, m, err))
 						failed = true
 						break
 					}
-					off += n
+					off = end
+					if tracked == 2 && k < len(p)-1 && off > 0 {
+						ack, err := s.Suspend()
+						if err != nil || int(ack) > off || int(ack)%j.cs != 0 || off-int(ack) >= j.cs {
+							viol("suspend", fmt.Sprintf("Suspend after %d bytes returned (%d, %v)", off, ack, err))
+							failed = true
+							break
+						}
+						s, err = bucket.OpenUploadStreamWithID(w.Ctx, id, "name", options.GridFSUpload().SetChunkSizeBytes(int32(j.cs)))
+						if err != nil {
+							viol("reopen", err.Error())
+							failed = true
+							break
+						}
+						s.VerifSetBufferSize(j.B)
+						got, err := s.Resume()
+						if err != nil || got != ack {
+							viol("resume", fmt.Sprintf("Resume after a Suspend that acknowledged %d of %d bytes returned (%d, %v)", ack, off, got, err))
+							failed = true
+							break
+						}
+						atomic.AddInt64(&c18Suspensions, 1)
+						off = int(ack) // the unacknowledged tail is sent again with the next write
+					}
 				}
 				if failed {
 					continue
@@ -190,7 +233,7 @@ func c18Uploads(c *Ctx) (uploads, partitions int64) {
 					viol("close", err.Error())
 					continue
 				}
-				if tracked == 1 {
+				if tracked >= 1 {
 					if err := bucket.ClaimUpload(w.Ctx, id); err != nil {
 						viol("claim", err.Error())
 						continue
@@ -439,8 +482,16 @@ func (l *c18Life) Step(a int) bool {
 		if l.stream == nil {
 			return false
 		}
+		written := l.off
 		n, err := l.stream.Suspend()
 		l.trace = append(l.trace, fmt.Sprintf("suspend=(%d,%v)", n, err))
+		if err == nil && !l.fresh && written > 0 {
+			// a suspended upload that has received data can be resumed: its "uploading" marker exists, however little was sent
+			if _, file, markers := c18State(w, "f"); file == nil && !(len(markers) == 1 && markers[0]["state"] == "uploading") {
+				l.viol("suspend-leaves-no-marker", fmt.Sprintf("Suspend succeeded after %d bytes were written but left %d markers: the upload cannot be resumed", written, len(markers)))
+				return false
+			}
+		}
 		if err == nil && !l.fresh {
 			if int(n) > l.off || int(n)%l.cs != 0 || l.off-int(n) >= l.cs {
 				l.viol("suspend", fmt.Sprintf("Suspend acknowledged %d bytes after %d were written (chunk size %d)", n, l.off, l.cs))
@@ -455,6 +506,10 @@ func (l *c18Life) Step(a int) bool {
 		}
 		n, err := l.stream.Resume()
 		l.trace = append(l.trace, fmt.Sprintf("resume=(%d,%v)", n, err))
+		if err != nil && l.mustResume {
+			l.viol("resume-fails", fmt.Sprintf("Resume of a suspended upload failed: %v", err))
+			return false
+		}
 		if err != nil {
 			l.stream = nil
 			break
@@ -594,8 +649,12 @@ func (l *c18Life) Done() {
 func init() {
 	Register("C18", "model_checking", func(c *Ctx) {
 		r := c.R
+		t0 := time.Now()
 		uploads, partitions := c18Uploads(c)
+		r.Set("seconds_upload_sweep", int64(time.Since(t0).Seconds()))
+		t0 = time.Now()
 		scripts, dsteps := c18Downloads(c)
+		r.Set("seconds_download_sweep", int64(time.Since(t0).Seconds()))
 		var stats [4]int64
 		depth := 5
 		if !c.Quick() {
@@ -670,8 +729,9 @@ func init() {
 		r.Set("traces_validated_against_impl", paths+scripts)
 		r.Set("distinct_nontrivial", stats[1])
 		r.Set("exhaustive", exh && !r.TooMany())
+		r.Set("upload_suspend_resume_cycles", c18Suspensions)
 		r.Set("samples", []interface{}{map[string]interface{}{"lifecycle_actions": c18Actions}, map[string]interface{}{"upload_grid": "buffer in {4,6} x chunk size 1..4 x length 0..2B+c+1 x all compositions into <= 3 writes x tracked/untracked"}})
-		r.Set("rule", "upload sweep: upload buffer shrunk to 4/6 bytes (verif accessor) x chunk size 1..4 x every length 0..2B+c+1 x every composition into <= 3 writes (empty writes included) x tracked (claimed) / untracked: file record states the exact length and chunk size, chunks are numbered 0..n-1 with all but the last full, their concatenation and DownloadToStream equal the content, no marker is left. download sweep: for every (chunk size, length) every script of <= 3 operations from Read(k), Skip(k), Seek(o, Start|Current|End) incl. negative and beyond-the-end targets against bytes.Reader: same byte count, bytes, position and error/EOF behaviour. lifecycle DFS without deduplication: every sequence <= max_depth of {open, write 3, write 1, suspend, resume, close, abort, claim, delete, cleanup(0), download} on an untracked and a tracked bucket (content 11 bytes, chunk 2, buffer 4); after every step: chunk numbering/size/content invariant, no orphan chunks, file record and uploaded marker state the stored length, download returns the uploaded prefix, abort/delete/cleanup leave nothing behind. thorough additionally uploads 16 MiB-1 .. 32 MiB+1 through the production buffer.")
+		r.Set("rule", "upload sweep: upload buffer shrunk to 4/6 bytes (verif accessor) x chunk size 1..4 x every length 0..2B+c+1 x every composition into <= 3 writes (empty writes included) x tracked (claimed) / tracked with Suspend + Resume on a new stream after every write but the last / untracked: file record states the exact length and chunk size, chunks are numbered 0..n-1 with all but the last full, their concatenation and DownloadToStream equal the content, no marker is left. download sweep: for every (chunk size, length) every script of <= 3 operations from Read(k), Skip(k), Seek(o, Start|Current|End) incl. negative and beyond-the-end targets against bytes.Reader: same byte count, bytes, position and error/EOF behaviour. lifecycle DFS without deduplication: every sequence <= max_depth of {open, write 3, write 1, suspend, resume, close, abort, claim, delete, cleanup(0), download} on an untracked and a tracked bucket (content 11 bytes, chunk 2, buffer 4); after every step: chunk numbering/size/content invariant, no orphan chunks, file record and uploaded marker state the stored length, download returns the uploaded prefix, abort/delete/cleanup leave nothing behind. thorough additionally uploads 16 MiB-1 .. 32 MiB+1 through the production buffer.")
 		r.Assume("the 16 MiB upload buffer is replaced per stream through a verif-tagged accessor; the production constant is exercised by 30 uploads in the thorough tier only", "chunk sizes larger than the upload buffer are outside the domain (16 MiB is also the BSON document limit)")
 		if uploads < 5000 || scripts < 50000 || paths < 3000 || stats[1] < 300 {
 			r.Broken("vacuity: uploads=%d scripts=%d lifecycle paths=%d states with a file=%d", uploads, scripts, paths, stats[1])
